@@ -130,6 +130,61 @@ struct Ops {
 
 	Ops(eng::Ctx& c, bool lifetimeMode) : ctx(c), lifetime(lifetimeMode) {}
 
+	// CROWD histories (a fraction chosen by the harness): "copy" steps make hundreds to tens of thousands of extra
+	// references to one node at a time - copies of one handle, or one-cube diagrams that all hang the same default leaf
+	// under every internal node - and release a generated part of them while the pool handles stay alive.  Reference
+	// counts then leave the range that a handful of handles can reach (the counters are per node, any width is "enough"
+	// for a small pool).
+	bool crowdMode = false;
+	std::vector<MT> crowd;
+	size_t crowdPeak = 0;
+	void release_crowd() { crowd.clear(); }
+
+	template <class D = Data>
+	typename std::enable_if<std::is_same<D, int>::value, bool>::type
+	crowd_of_diagrams(size_t n, int defCode)
+	{
+		// distinct (cube, value) pairs with values outside the model's range: every diagram is a chain of NV internal
+		// nodes whose other branch is the shared default leaf
+		for (size_t k = 0; k < n; ++k) {
+			std::string cb = cube(0, NV);
+			for (int i = 0; i < NV; ++i) cb[static_cast<size_t>(i)] = ((k >> i) & 1) ? '1' : '0';
+			crowd.emplace_back(SymbolicVarAsgn(cb), 1000 + static_cast<int>(k >> NV), C::enc(defCode));
+		}
+		return true;
+	}
+	template <class D = Data>
+	typename std::enable_if<!std::is_same<D, int>::value, bool>::type
+	crowd_of_diagrams(size_t, int) { return false; }
+
+	void crowd_step(const eng::Rec& r, size_t i)
+	{
+		static const size_t sizes[] = {40, 300, 1100, 5000, 33000, 66000};
+		size_t n = sizes[r[3] % 6] + r[4] % 4000;
+		const bool diagrams = (r[5] / 64) % 3 == 0;
+		if (diagrams) n = n / NV + 1;
+		log << step << ":crowd(" << (diagrams ? "diagrams" : "copies of m" + std::to_string(i)) << ",n=" << n << ") ";
+		const size_t before = crowd.size();
+		{
+			eng::LibSection ls(ctx, "mtbdd:crowd:create");
+			if (!diagrams || !crowd_of_diagrams(n, pool[i].t.def)) {
+				crowd.reserve(before + n);
+				for (size_t k = 0; k < n; ++k) crowd.emplace_back(*pool[i].m);
+			}
+		}
+		crowdPeak = std::max(crowdPeak, crowd.size());
+		check_all("crowd-created");
+		if (failed) return;
+		// release between 1/16 and 16/16 of the whole crowd, from the back or from the front
+		const size_t drop = std::max<size_t>(1, crowd.size() * (1 + r[5] % 16) / 16);
+		{
+			eng::LibSection ls(ctx, "mtbdd:crowd:release");
+			if ((r[5] / 16) % 2) crowd.erase(crowd.begin(), crowd.begin() + static_cast<long>(drop));
+			else crowd.resize(crowd.size() - drop, MT(C::enc(0)));
+		}
+		log << "released " << drop << " ";
+	}
+
 	size_t lastPut = 0;
 	void put(MT&& m, const Table& t, int group, uint32_t sel)
 	{
@@ -365,6 +420,7 @@ struct Ops {
 			case 12: {
 				what = "copy";
 				size_t i = pick(r[1]);
+				if (crowdMode && (r[6] % 2)) { what = "crowd"; crowd_step(r, i); break; }
 				log << step << ":copy(m" << i << ") ";
 				eng::LibSection ls(ctx, "mtbdd:copy");
 				MT c(*pool[i].m);
@@ -420,7 +476,7 @@ struct Ops {
 		if (what.empty() || failed) return;
 		ops.insert(what);
 		check_all(what);
-		if (!failed && !pool.empty() && what != "destroy" && what != "void-apply") check_paths(pool[(r[6]) % pool.size()]);
+		if (!failed && !pool.empty() && what != "destroy" && what != "void-apply" && what != "crowd") check_paths(pool[(r[6]) % pool.size()]);
 		if (!failed && !lifetime && lastPut < pool.size() &&
 			(what == "project" || what == "rename" || what == "extend" || what == "prefix" || what == "construct" || (r[6] / 8) % 4 == 0))
 			check_canonical(pool[lastPut], what);
